@@ -72,6 +72,7 @@ func (m *MLDv2MulticastListenerQueryMessage) DecodeFromBytes(data []byte, df gop
 	m.QueriersQueryIntervalCode = data[21]
 
 	m.NumberOfSources = binary.BigEndian.Uint16(data[22:24])
+	m.SourceAddresses = m.SourceAddresses[:0]
 
 	var end int
 	for i := uint16(0); i < m.NumberOfSources; i++ {
@@ -315,6 +316,7 @@ func (m *MLDv2MulticastListenerReportMessage) DecodeFromBytes(data []byte, df go
 	// ignore data[0:2] as per RFC
 	// https://tools.ietf.org/html/rfc3810#section-5.2.1
 	m.NumberOfMulticastAddressRecords = binary.BigEndian.Uint16(data[2:4])
+	m.MulticastAddressRecords = m.MulticastAddressRecords[:0]
 
 	begin := 4
 	for i := uint16(0); i < m.NumberOfMulticastAddressRecords; i++ {
